@@ -26,6 +26,19 @@ def opSpec : Op := fun j => do
       | some v => outFl v
       | none => Json.null).toArray).toArray
 
+/-- the same on the extended reals (`Spec.discX`): infinite data / thresholds are valid, comparable values;
+    null only for `==` / `!=` between equal infinities -/
+def opSpecX : Op := fun j => do
+  let data ← fFlList j "data"; let cs ← fFlList j "comparison"
+  let t ← fRat j "tol"
+  match Spec.Discretise.Rel.ofName? (← fStr j "rel") with
+  | none => throw "unknown relation"
+  | some r =>
+    pure <| Json.arr (data.map fun x => Json.arr (cs.map fun c =>
+      match Spec.Discretise.discX r x c t with
+      | some v => outFl v
+      | none => Json.null).toArray).toArray
+
 def outCounts (c : Spec.Discretise.Counts) : List (String × Json) :=
   [("tp", outNat c.tp), ("tn", outNat c.tn), ("fp", outNat c.fp), ("fn", outNat c.fn), ("total", outNat c.total)]
 
@@ -41,6 +54,6 @@ def opCountEvents : Op := fun j => do
   let es ← zipPairs (← fFlList j "fcst") (← fFlList j "obs")
   pure <| outObj (outCounts (Spec.Discretise.countEvents es))
 
-def ops : OpTable := [("c08.spec", opSpec), ("c08.countspec", opCountSpec), ("c08.countevents", opCountEvents)]
+def ops : OpTable := [("c08.spec", opSpec), ("c08.specx", opSpecX), ("c08.countspec", opCountSpec), ("c08.countevents", opCountEvents)]
 
 end SV.Driver.C08Spec
